@@ -131,6 +131,20 @@ def r3(body):
     return body, count
 
 
+@rule("R16", "&S[A..B] / S[A..] on a `str` place named input/self.input -> vx_str_slice*(S, A, B)   [trusted std contract: vstd specifies the precondition of str indexing but not its result]")
+def r16(body):
+    def rep(m):
+        x, a, b = m.group(2), (m.group(3) or "").strip(), (m.group(4) or "").strip()
+        if a and b:
+            return "vx_str_slice(%s, %s, %s)" % (x, a, b)
+        if a:
+            return "vx_str_slice_from(%s, %s)" % (x, a)
+        if b:
+            return "vx_str_slice_to(%s, %s)" % (x, b)
+        return "vx_str_slice_full(%s)" % x
+    return _sub(r"(&\s*)?\b((?:self\s*\.\s*)?input)\s*\[\s*([^\[\];]*?)\s*\.\.\s*([^\[\];]*?)\s*\]", rep, body)
+
+
 def apply_rewrites(body, only=None):
     counts = {}
     for name, (f, _doc) in RULES.items():
